@@ -9,6 +9,10 @@ import Driver.Route
 import Driver.Lockup
 import Driver.IbcSwap
 import Driver.Untrusted
+import Driver.Fee
+import Driver.Mint
+import Driver.GovTally
+import Driver.Gauge
 open Sunrise.Driver
 
 def evalLine (line : String) : String :=
@@ -34,6 +38,10 @@ def suites : List (String × (IO.FS.Stream → IO.FS.Stream → IO Unit)) :=
   [("lockup", LockupSuite.run)] ++
   [("ibc", IbcSuite.run)] ++
   [("untrusted", UntrustedSuite.run)] ++
+  [("fee", FeeSuite.run)] ++
+  [("mint", MintSuite.run)] ++
+  [("govtally", GovTallySuite.run)] ++
+  [("gauge", GaugeSuite.run)] ++
   []
 
 def main : IO Unit := do
